@@ -10,6 +10,7 @@ import (
 	"fmt"
 	"go/types"
 	"os"
+	"os/exec"
 	"path/filepath"
 	"regexp"
 	"strconv"
@@ -158,6 +159,50 @@ func auditCmd() int {
 		sk = append(sk, fmt.Sprintf("%s(%d)", k, n))
 	}
 	fmt.Printf("audit: %d library functions, %d sample evaluations checked against their axioms, %d contradictions; not modelled as library symbols: %s\n", len(order), checked, bad, strings.Join(sk, " "))
+	if only == "" || only == "splitnosep" {
+		// the two cross-function facts behind the recursion measure of pypi.parseSpecifier, against the real library
+		strs := []string{"", "a", "a,b", " a , b ", ",", ",,", "1.0,<2", ">=1, <2 ,!=1.5", "x||y", "a b", " , ", "é,日"}
+		n := 0
+		for si, str := range strs {
+			for pi, sep := range []string{",", "||", " ", ", "} {
+				g := newGen(w, nil)
+				g.libDep("splitnosep")
+				g.sortOf(types.NewSlice(types.Typ[types.String]))
+				sl, pl := g.lit(str), g.lit(sep)
+				parts := strings.Split(str, sep)
+				sp := "(L_strings_Split " + sl + " " + pl + ")"
+				facts := []string{fmt.Sprintf("(assert (= (len_L_Str %s) %d))", sp, len(parts))}
+				for i, e := range parts {
+					el := g.lit(e)
+					facts = append(facts, fmt.Sprintf("(assert (= (select (arr_L_Str %s) (+ (off_L_Str %s) %d)) %s))", sp, sp, i, el))
+					if strings.Contains(e, sep) {
+						facts = append(facts, fmt.Sprintf("(assert (L_strings_Contains %s %s))", el, pl))
+					} else {
+						facts = append(facts, fmt.Sprintf("(assert (not (L_strings_Contains %s %s)))", el, pl))
+					}
+					n++
+				}
+				tl := g.lit(strings.TrimSpace(str))
+				facts = append(facts, fmt.Sprintf("(assert (= (L_strings_TrimSpace %s) %s))", sl, tl))
+				for _, x := range []struct {
+					t Term
+					v bool
+				}{{tl, strings.Contains(strings.TrimSpace(str), sep)}, {sl, strings.Contains(str, sep)}} {
+					if x.v {
+						facts = append(facts, fmt.Sprintf("(assert (L_strings_Contains %s %s))", x.t, pl))
+					} else {
+						facts = append(facts, fmt.Sprintf("(assert (not (L_strings_Contains %s %s)))", x.t, pl))
+					}
+				}
+				file := filepath.Join(dir, fmt.Sprintf("splitnosep.%d.%d.smt2", si, pi))
+				if res := solve(g.script(append(facts, "(check-sat)")), file, 5*time.Second, false); res.Status == "unsat" {
+					bad++
+					fmt.Printf("AUDIT-FAIL splitnosep: the cross-function facts contradict the library on Split(%q, %q) (script %s)\n", str, sep, file)
+				}
+			}
+		}
+		fmt.Printf("audit: Split/Contains/TrimSpace cross facts checked on %d parts of %d strings x 4 separators\n", n, len(strs))
+	}
 	if only == "" || only == "runes" {
 		// the range-over-string model (rune_count/rune_pos/rune_val/rune_of) against real iteration, invalid UTF-8 included
 		nr := 0
@@ -197,10 +242,153 @@ func auditCmd() int {
 		fmt.Printf("audit: %d regular-expression literals, %d matches checked against the derived facts, %d contradictions\n", np, ne, nb)
 		bad += nb
 	}
+	if only == "" || only == "native" {
+		bad += auditNative()
+	}
 	if bad > 0 {
 		return 1
 	}
 	return 0
+}
+
+// auditNative compares the transcriptions of the native ordering algorithms used as oracles by the bounded C09/C10/C12
+// obligations with the native tools where the image happens to have them (dpkg, Maven's ComparableVersion, Python's
+// packaging).  The registered checks never call these tools; the audit only refutes a wrong transcription.
+func auditNative() int {
+	w, err := loadWorld(repoDir)
+	if err != nil {
+		fmt.Println("audit: native: cannot load the repository:", err)
+		return 0
+	}
+	os.Setenv("VERIF_DUMP", "1")
+	defer os.Unsetenv("VERIF_DUMP")
+	type pair struct {
+		a, b  string
+		sign  int
+		class string
+	}
+	parse := func(out string) []pair {
+		var ps []pair
+		for _, ln := range strings.Split(out, "\n") {
+			rest, ok := strings.CutPrefix(ln, "VERIF-PAIR ")
+			if !ok {
+				continue
+			}
+			var p pair
+			if _, err := fmt.Sscanf(rest, "%q %q %d %s", &p.a, &p.b, &p.sign, &p.class); err == nil {
+				ps = append(ps, p)
+			}
+		}
+		return ps
+	}
+	bad := 0
+	report := func(tool string, p pair, native int) {
+		bad++
+		if bad <= 12 {
+			fmt.Printf("AUDIT-FAIL native %s: %q vs %q: the transcription says %d, %s says %d (class %s)\n", tool, p.a, p.b, p.sign, tool, native, p.class)
+		}
+	}
+	// Debian: dpkg --compare-versions
+	if _, err := exec.LookPath("dpkg"); err == nil {
+		r := runRefOrder(w, "C10")
+		ps := parse(r.out)
+		for _, p := range ps {
+			native := 0
+			if exec.Command("dpkg", "--compare-versions", p.a, "lt", p.b).Run() == nil {
+				native = -1
+			} else if exec.Command("dpkg", "--compare-versions", p.a, "gt", p.b).Run() == nil {
+				native = 1
+			}
+			if native != p.sign {
+				report("dpkg", p, native)
+			}
+		}
+		fmt.Printf("audit: native dpkg --compare-versions: %d sampled pairs of the C10 pool compared with the verrevcmp transcription\n", len(ps))
+	} else {
+		fmt.Println("audit: native dpkg: not installed, skipped")
+	}
+	// Maven: ComparableVersion's main prints "a OP b" for consecutive arguments
+	jar := ""
+	for _, c := range []string{"/usr/share/java/maven-artifact-3.x.jar", "/usr/share/maven/lib/maven-artifact-3.x.jar"} {
+		if _, err := os.Stat(c); err == nil {
+			jar = c
+			break
+		}
+	}
+	if _, err := exec.LookPath("java"); err == nil && jar != "" {
+		r := runRefOrder(w, "C12")
+		ps := parse(r.out)
+		n := 0
+		for at := 0; at < len(ps); at += 150 {
+			chunk := ps[at:min(len(ps), at+150)]
+			args := []string{"-cp", jar, "org.apache.maven.artifact.versioning.ComparableVersion"}
+			for _, p := range chunk {
+				args = append(args, p.a, p.b)
+			}
+			out, err := exec.Command("java", args...).CombinedOutput()
+			if err != nil {
+				fmt.Println("audit: native maven: java failed:", truncate(string(out), 200))
+				break
+			}
+			// lines "   a OP b" appear after every argument but the first: the odd ones (a_i vs b_i) are ours
+			var cmps []string
+			for _, ln := range strings.Split(string(out), "\n") {
+				if strings.HasPrefix(ln, "   ") {
+					cmps = append(cmps, strings.TrimSpace(ln))
+				}
+			}
+			for i, p := range chunk {
+				if 2*i >= len(cmps) {
+					break
+				}
+				f := strings.Fields(cmps[2*i])
+				if len(f) != 3 || f[0] != p.a || f[2] != p.b {
+					continue // a version text with a blank or an unexpected echo: not comparable this way
+				}
+				native := map[string]int{"<": -1, "==": 0, ">": 1}[f[1]]
+				n++
+				if native != p.sign {
+					report("ComparableVersion", p, native)
+				}
+			}
+		}
+		fmt.Printf("audit: native Maven ComparableVersion (%s): %d sampled pairs of the C12 pool compared with the transcription\n", jar, n)
+	} else {
+		fmt.Println("audit: native maven: java or maven-artifact jar not found, skipped")
+	}
+	// PyPI: packaging.version in the tooling venv
+	if py, err := exec.LookPath("python3-vt"); err == nil {
+		_, out := runPep440(w)
+		ps := parse(out)
+		var in strings.Builder
+		for _, p := range ps {
+			fmt.Fprintf(&in, "%s\t%s\n", p.a, p.b)
+		}
+		cmd := exec.Command(py, "-c", "import sys\nfrom packaging.version import Version\nfor ln in sys.stdin:\n    a,b=ln.rstrip('\\n').split('\\t')\n    x,y=Version(a),Version(b)\n    print(-1 if x<y else (1 if x>y else 0))\n")
+		cmd.Stdin = strings.NewReader(in.String())
+		res, err := cmd.Output()
+		if err != nil {
+			fmt.Println("audit: native pypi: packaging not usable, skipped:", err)
+		} else {
+			lines := strings.Fields(string(res))
+			for i, p := range ps {
+				if i >= len(lines) {
+					break
+				}
+				native, _ := strconv.Atoi(lines[i])
+				if native != p.sign {
+					report("packaging.version", p, native)
+				}
+			}
+			fmt.Printf("audit: native Python packaging.version: %d sampled pairs of the C09 pool compared with the PEP 440 key of the harness\n", len(lines))
+		}
+	} else {
+		fmt.Println("audit: native pypi: python3-vt not found, skipped")
+	}
+	if bad > 12 {
+		fmt.Printf("audit: native: %d differences in all\n", bad)
+	}
+	return bad
 }
 
 // auditRegexFacts checks the facts derived from every regular-expression literal of the repository (rx.go) against the
